@@ -166,6 +166,21 @@ def axi_force(field, um, vals, ngeo=None):
     return r
 
 
+def own_revolved_volume(mesh, nv):
+    """Oracle-side volume of the body of revolution of a mesh with straight-sided cells, from the vertex coordinates alone (Pappus): every
+    cell is a fan of triangles, each sweeps 2 pi * area * radius of its centroid. No quadrature rule, Jacobian or shape function of the
+    library enters (fourth audit: every other 'own' reference of this check integrates with the region's dV)."""
+    X = mesh.points
+    V = 0.0
+    for cell in mesh.cells:
+        P = X[cell[:nv]]
+        for k in range(1, nv - 1):
+            T = P[[0, k, k + 1]]
+            A = 0.5 * ((T[1, 0] - T[0, 0]) * (T[2, 1] - T[0, 1]) - (T[2, 0] - T[0, 0]) * (T[1, 1] - T[0, 1]))
+            V += 2 * np.pi * abs(A) * T[:, 1].mean()
+    return float(V)
+
+
 def case_axisymmetric_axis(fam, rep):
     """A solid body of revolution that touches the axis, its mesh graded towards the axis (innermost quadrature points at 1e-4 .. 1e-3 of
     the outer radius) in several length units; u_r vanishes on the axis. Forces against the oracle's own virtual work."""
@@ -228,6 +243,48 @@ def case_axisymmetric_energy(fam, rep):
         run.compare("reduced.axisymmetric", "family=%s clause=force-is-virtual-work" % fam, maxabs(r - own) / max(maxabs(own), 1e-300), 1e-10,
                     "axisymmetric nodal forces on %s are not the virtual work of the stresses over the revolved volume" % fam,
                     unit="axisymmetric:virtual-work:" + fam, config=(fam, "vw", rep % 2))
+        # fourth audit, item 1: the axisymmetric tangent (hoop split of the bilinear form) was only ever compared library against library
+        # (uniform vs general region, condensed vs explicit Newton run). Here: K = d(own virtual-work force) / du by central differences
+        # with a step of 1e-6 body sizes (round-off dominated, observed <= 2e-10 on the unchanged tree), and K = K^T (hyperelastic law)
+        K = solid.assemble.matrix(field).toarray()
+        Kref = np.zeros_like(K)
+        hk = 1e-6 * size
+        for k in range(v0.size):
+            d = np.zeros(v0.size)
+            d[k] = hk
+            Kref[:, k] = (axi_force(field, um, v0 + d.reshape(v0.shape), ng) - axi_force(field, um, v0 - d.reshape(v0.shape), ng)).ravel() / (2 * hk)
+        run.compare("reduced.axisymmetric", "family=%s clause=stiffness-is-virtual-work-derivative" % fam, maxabs(K - Kref) / max(maxabs(Kref), 1e-300), 5e-8,
+                    "axisymmetric stiffness on %s is not the derivative of the virtual work of the stresses over the revolved volume (in-plane, hoop and "
+                    "coupling blocks)" % fam, unit="axisymmetric:stiffness:" + fam, config=(fam, "K", rep % 2), sample={"family": fam, "unknowns": int(v0.size), "max|K|": maxabs(K)})
+        run.compare("reduced.axisymmetric", "family=%s clause=stiffness-symmetric" % fam, maxabs(K - K.T) / max(maxabs(K), 1e-300), 1e-13,
+                    "axisymmetric stiffness of a hyperelastic body on %s is not symmetric" % fam, unit="axisymmetric:stiffness-symmetric", config=(fam, "K=KT", rep % 2))
+        # fourth audit, item 2: an anchor of the '(2 pi R) revolved volume' outside the region's quadrature. (i) the measure the library integrates
+        # with, sum_q 2 pi R_q dV_q, against Pappus on the vertex coordinates; (ii) a homogeneous state u = (a z, b r): the virtual work of the nodal
+        # forces along du = (0, r) and du = (z, 0) is (P22 + P33) V and P11 V with P at F = diag(1 + a, 1 + b, 1 + b) and the Pappus volume V
+        # (bubble unknowns are amplitudes: zero in u and in du)
+        nv = gen.FAMILIES[fam]["nv"]
+        Vown = own_revolved_volume(mesh, nv)
+        X = mesh.points
+        vert = np.ones(len(X), bool)
+        if ng:
+            vert[mesh.cells[:, -1]] = False
+        Vlib = float((2 * np.pi * field[0].radius * reg.dV).sum())
+        run.compare("reduced.axisymmetric", "family=%s clause=revolved-volume-is-pappus" % fam, abs(Vlib - Vown) / Vown, 2e-13,
+                    "the measure 2 pi R dV an axisymmetric %s field integrates with does not sum to the volume of the body of revolution (Pappus on the "
+                    "vertex coordinates)" % fam, unit="axisymmetric:volume:" + fam, config=(fam, "pappus", rep % 2), sample={"family": fam, "volume": Vown})
+        ab = rng_for(run.seed, "C10", "axi-homogeneous", fam, rep).uniform(-0.2, 0.2, 2)
+        zc = float(X[:, 0].mean())
+        uh = np.stack([ab[0] * (X[:, 0] - zc), ab[1] * X[:, 1]], 1) * vert[:, None]
+        fh = fem.FieldContainer([fem.FieldAxisymmetric(reg, dim=2)])
+        fh[0].values[:] = uh
+        umh = [fem.NeoHooke(mu=1.0, bulk=3.0), fem.NeoHookeCompressible(mu=1.0, lmbda=2.0)][rep % 2]
+        rh = fem.SolidBody(umh, fh).assemble.vector(fh).toarray().reshape(uh.shape)
+        Ph = umh.gradient([np.diag([1 + ab[0], 1 + ab[1], 1 + ab[1]]).reshape(3, 3, 1, 1), None])[0][..., 0, 0]
+        sh = maxabs(Ph) * Vown
+        run.compare("reduced.axisymmetric", "family=%s clause=homogeneous-virtual-work" % fam,
+                    max(abs(float((rh[vert, 1] * X[vert, 1]).sum()) - (Ph[1, 1] + Ph[2, 2]) * Vown), abs(float((rh[vert, 0] * (X[vert, 0] - zc)).sum()) - Ph[0, 0] * Vown)) / sh, 2e-12,
+                    "homogeneous state u = (a z, b r) on %s: the virtual work of the axisymmetric nodal forces along (0, r) / (z, 0) is not (P22 + P33) V / P11 V "
+                    "with the volume V of the body of revolution" % fam, unit="axisymmetric:homogeneous:" + fam, config=(fam, "homogeneous", rep % 2))
         if errs[1] > 2e-6 and errs[1] < 0.35 * errs[0]:
             run.skip("reduced.axisymmetric", "finite-difference error still shrinking")
             return
@@ -309,16 +366,12 @@ def case_condensed_state(kind, fam, rep):
         s1 = fem.SolidBodyNearlyIncompressible(iso(), f1, bulk=bulk)
         s1.assemble.vector(f1)
         r1 = s1.assemble.vector(f1).toarray().ravel()
-        Fq = f1.extract()[0]
-        detF = np.linalg.det(np.moveaxis(Fq, (0, 1), (-2, -1)))
+        # J = v / V and p = K (J - 1) from the oracle's own deformation gradient (I + u dh/dX, hoop stretch 1 + u_r / R), radius and weights
+        # (fourth audit, item 4: they were averaged from f1.extract(), which made the vanishing of the dual blocks a tautology)
         reg = f1.region
-        if kind == "axisymmetric":
-            R = np.einsum("ca,aqc->qc", mesh.points[:, 1][mesh.cells], np.broadcast_to(reg.h, (reg.h.shape[0],) + reg.dV.shape))
-            w = 2 * np.pi * R * reg.dV
-        else:
-            w = reg.dV
-        J = (detF * w).sum(0) / w.sum(0)
-        f3[1].values[:] = (bulk * (J - 1)).reshape(f3[1].values.shape)
+        w = own_kinematics(reg, mesh, u, kind)[2]
+        J, p_own = own_condensed_residual(reg, mesh, u, None, bulk, kind)[1:]
+        f3[1].values[:] = p_own.reshape(f3[1].values.shape)
         f3[2].values[:] = J.reshape(f3[2].values.shape)
         s3 = fem.SolidBody(fem.NearlyIncompressible(iso(), bulk=bulk), f3)
         r3 = s3.assemble.vector(f3).toarray().ravel()
@@ -330,13 +383,48 @@ def case_condensed_state(kind, fam, rep):
         run.compare("reduced.condensed", "kind=%s clause=state-constraint-blocks-vanish" % kind, maxabs(r3[nu:]) / max(sc, bulk * float(np.abs(w).sum()) * 1e-3), 1e-9,
                     "with J = v/V and p = bulk (J - 1) the pressure / volume blocks of the three-field residual do not vanish (%s/%s)" % (kind, fam),
                     unit="condensed:state-blocks:" + kind)
+        # fourth audit, item 1: tangent defects of the explicit side (the u-p / p-J blocks of the axisymmetric mixed form) made both Newton runs of
+        # case_condensed degrade together or ended inconclusive. Away from the settled state (random cell-wise p, J, so that no block vanishes) the
+        # residual of the explicit form is the oracle's own three-field residual, and its matrix the derivative of that residual (central differences,
+        # steps of 1e-6 of the natural size of each unknown: body size, K, 1; compared in the scaling D K D that gives all blocks the unit of an energy)
+        rq = rng_for(run.seed, "C10", "threefield-own", kind, fam, rep)
+        Jx = J + 0.05 * rq.uniform(-1, 1, J.shape)
+        px = p_own + (0.3 * mu + 0.02 * bulk) * rq.uniform(-1, 1, J.shape)
+        f3[1].values[:] = px.reshape(f3[1].values.shape)
+        f3[2].values[:] = Jx.reshape(f3[2].values.shape)
+        um_own = iso()
+        s3x = fem.SolidBody(fem.NearlyIncompressible(iso(), bulk=bulk), f3)
+        r3x = s3x.assemble.vector(f3).toarray().ravel()
+        K3x = s3x.assemble.matrix(f3).toarray()
+        nc = mesh.ncells
+
+        def res(x):
+            return np.concatenate([b.ravel() for b in own_threefield_residual(reg, mesh, x[:nu].reshape(u.shape), x[nu:nu + nc], x[nu + nc:], um_own, bulk, kind)])
+        x0 = np.concatenate([u.ravel(), px, Jx])
+        own = res(x0)
+        Vmax = float(w.sum(0).max())
+        err = max(maxabs(r3x[:nu] - own[:nu]) / max(maxabs(own[:nu]), 1e-300), maxabs(r3x[nu:nu + nc] - own[nu:nu + nc]) / Vmax, maxabs(r3x[nu + nc:] - own[nu + nc:]) / (bulk * Vmax))
+        run.compare("reduced.condensed", "kind=%s clause=three-field-residual-is-own" % kind, err, 1e-12,
+                    "explicit three-field form (%s/%s): residual at a state with random cell-wise p, J is not (P_iso + p dJ/dF : grad N, det F - J, K (J - 1) - p) integrated "
+                    "with the oracle's own F, R and weights" % (kind, fam), unit="threefield:own-residual:" + kind, config=("threefield-own", kind, fam, rep % 2, "r"))
+        D = np.concatenate([np.full(nu, float(np.ptp(mesh.points, axis=0).max())), np.full(nc, bulk), np.ones(nc)])
+        Kref = np.zeros_like(K3x)
+        for k in range(x0.size):
+            d = np.zeros(x0.size)
+            d[k] = 1e-6 * D[k]
+            Kref[:, k] = (res(x0 + d) - res(x0 - d)) / (2 * d[k])
+        err = max(maxabs(D[:, None] * (K3x - Kref) * D[None, :]) / maxabs(D[:, None] * Kref * D[None, :]), maxabs(K3x[:nu, :nu] - Kref[:nu, :nu]) / maxabs(Kref[:nu, :nu]))
+        run.compare("reduced.condensed", "kind=%s clause=three-field-stiffness-is-own-residual-derivative" % kind, err, 5e-8,
+                    "explicit three-field form (%s/%s): matrix (displacement, u-p, p-J and J-J blocks) is not the derivative of the oracle's own three-field residual" % (kind, fam),
+                    unit="threefield:own-stiffness:" + kind, config=("threefield-own", kind, fam, rep % 2, "K"), sample={"kind": kind, "family": fam, "bulk": bulk, "unknowns": int(x0.size)})
+        run.compare("reduced.condensed", "kind=%s clause=three-field-stiffness-symmetric" % kind, maxabs(K3x - K3x.T) / maxabs(K3x), 1e-13,
+                    "explicit three-field form (%s/%s): the matrix of a variational form is not symmetric" % (kind, fam), unit="threefield:own-stiffness:" + kind)
     return fn
 
 
-def own_condensed_residual(reg, mesh, u, um, bulk, kind, ngeo=None):
-    """Oracle-side residual of the condensed nearly-incompressible body at displacement values u (settled state: J = v / V per cell,
-    p = K (J - 1)): r = sum_q (P_iso(F) + p det F F^-T) : grad N w with the oracle's own F (hoop stretch 1 + u_r / R), own R (geometry
-    functions only) and own weights (2 pi R dA). Returns r, J, p."""
+def own_kinematics(reg, mesh, u, kind, ngeo=None):
+    """Oracle-side kinematics at displacement values u: F (hoop stretch 1 + u_r / R for axisymmetric bodies), det F, the radius R from the
+    geometry functions only, and the weights (2 pi R dA). Returns F, det F, w, R, h, dh."""
     cells, d = mesh.cells, mesh.dim
     n, q, c = reg.h.shape[0], reg.dV.shape[0], mesh.ncells
     ngeo = ngeo or n
@@ -351,17 +439,34 @@ def own_condensed_residual(reg, mesh, u, um, bulk, kind, ngeo=None):
         R = np.einsum("ca,aqc->qc", mesh.points[:, 1][cells[:, :ngeo]], h[:ngeo])
         F[2, 2] = 1 + np.einsum("ca,aqc->qc", u[:, 1][cells], h) / R
         w *= 2 * np.pi * R
-    Ft = F.transpose(2, 3, 0, 1)
-    detF = np.linalg.det(Ft)
+    return F, np.linalg.det(F.transpose(2, 3, 0, 1)), w, R, h, dh
+
+
+def own_condensed_residual(reg, mesh, u, um, bulk, kind, ngeo=None):
+    """Oracle-side residual of the condensed nearly-incompressible body at displacement values u (settled state: J = v / V per cell,
+    p = K (J - 1)): r = sum_q (P_iso(F) + p det F F^-T) : grad N w with the oracle's own F (hoop stretch 1 + u_r / R), own R (geometry
+    functions only) and own weights (2 pi R dA). Returns r, J, p (r is None without a law um: the settled J and p only)."""
+    F, detF, w, R, h, dh = own_kinematics(reg, mesh, u, kind, ngeo)
     J = (detF * w).sum(0) / w.sum(0)
     p = bulk * (J - 1)
-    P = um.gradient([F, None])[0] + p * detF * np.linalg.inv(Ft).transpose(3, 2, 0, 1)
+    if um is None:
+        return None, J, p
+    return own_threefield_residual(reg, mesh, u, p, J, um, bulk, kind, ngeo)[0], J, p
+
+
+def own_threefield_residual(reg, mesh, u, p, J, um, bulk, kind, ngeo=None):
+    """Oracle-side residual of the explicit three-field form psi_iso(F) + p (det F - J) + K / 2 (J - 1)^2 with cell-wise constant p, J:
+    r_u = sum_q (P_iso(F) + p det F F^-T) : grad N w (plus the hoop term P_33 N / R), r_p = sum_q (det F - J) w, r_J = sum_q (K (J - 1) - p) w,
+    own F, R and weights (2 pi R dA for axisymmetric bodies, in all three blocks). Returns r_u (points, dim), r_p (cells), r_J (cells)."""
+    cells, d = mesh.cells, mesh.dim
+    F, detF, w, R, h, dh = own_kinematics(reg, mesh, u, kind, ngeo)
+    P = um.gradient([F, None])[0] + p * detF * np.linalg.inv(F.transpose(2, 3, 0, 1)).transpose(3, 2, 0, 1)
     con = np.einsum("ijqc,ajqc,qc->cai", P[:d, :d], dh, w)
     if kind == "axisymmetric":
         con[:, :, 1] += np.einsum("qc,aqc,qc->ca", P[2, 2] / R, h, w)
     r = np.zeros_like(u, dtype=float)
     np.add.at(r, cells, con)
-    return r, J, p
+    return r, ((detF - J) * w).sum(0), ((bulk * (J - 1) - p) * w).sum(0)
 
 
 CONDENSED_OWN = [(fam, kind) for fam in ("quad", "quad8", "quad9", "triangle", "triangle6", "triangleMINI") for kind in ("planestrain", "axisymmetric")] + \
@@ -406,7 +511,8 @@ def case_condensed_own(fam, kind, rep):
         f, sb = body(u)
         sb.assemble.vector(f)
         r = sb.assemble.vector(f).toarray().reshape(u.shape)  # second evaluation at the same state: settled
-        own, J, p = own_condensed_residual(reg, mesh, u, sb.umat, bulk, base_kind, ngeo)
+        um_own = fem.NeoHooke(mu=mu)  # the law the caller asked for, not the one the body stores (fourth audit, item 5)
+        own, J, p = own_condensed_residual(reg, mesh, u, um_own, bulk, base_kind, ngeo)
         tag = "family=%s kind=%s" % (fam, kind)
         sc = max(maxabs(own), 1e-300)
         cfg = (fam, kind, (rep + CONDENSED_OWN.index((fam, kind))) % 5)
@@ -434,7 +540,7 @@ def case_condensed_own(fam, kind, rep):
             g = f.copy()
             g[0].values[:] = u + t * d
             r1 = sb.assemble.vector(g).toarray().reshape(u.shape)  # ONE evaluation at the new state
-            own_t, Jt, pt = own_condensed_residual(reg, mesh, u + t * d, sb.umat, bulk, base_kind, ngeo)
+            own_t, Jt, pt = own_condensed_residual(reg, mesh, u + t * d, um_own, bulk, base_kind, ngeo)
             errs.append(maxabs(sb.results.state.J - Jt))
             if t == 1.0:
                 run.compare("reduced.condensed", tag + " clause=unsettled-force-is-own-residual", maxabs(r1 - own_t) / max(maxabs(own_t), 1e-300), 1e-9,
@@ -507,11 +613,9 @@ def case_condensed(kind, fam, rep):
                         "%s: volume ratios differ" % label, unit="condensed:J:" + kind, config=(kind, fam, "J"))
             run.units["condensed:bulk:%d" % int(np.log10(bulk))] += 1
             # state of the condensed body: volume ratio = current / undeformed cell volume (oracle side), p = bulk (J - 1)
-            reg1 = f1.region
-            Fq = r1.x.extract()[0]
-            detF = np.linalg.det(np.moveaxis(Fq, (0, 1), (-2, -1)))
-            w = reg1.dV * (2 * np.pi * f1[0].radius if kind == "axisymmetric" else 1.0)
-            Jref = (detF * w).sum(0) / w.sum(0)
+            # (fourth audit, item 3: from the oracle's own F = I + u dh/dX, hoop stretch 1 + u_r / R and weights 2 pi R dA, not from the body's
+            # extract() / radius, where a wrong hoop stretch or radius is the same on both sides)
+            Jref = own_condensed_residual(reg, mesh, np.array(r1.x[0].values, dtype=float), None, bulk, kind)[1]
             run.compare("reduced.condensed", "kind=%s clause=state-volume-ratio" % kind, maxabs(s1.results.state.J - Jref), 1e-8,
                         "%s: stored volume ratio of the condensed body is not current / undeformed cell volume" % label, unit="condensed:state:" + kind)
             run.compare("reduced.condensed", "kind=%s clause=state-pressure" % kind, maxabs(s1.results.state.p - bulk * (Jref - 1)) / bulk, 1e-8,
@@ -625,10 +729,16 @@ SPEC = {
                        "axisymmetric:energy:triangle", "axisymmetric:energy:triangleMINI", "axisymmetric:axis:quad", "axisymmetric:axis:quad8", "axisymmetric:axis:triangle", "axisymmetric:axis:triangleMINI", "axisymmetric:virtual-work:quad", "axisymmetric:virtual-work:triangle6", "axisymmetric:revolve-convergence", "axisymmetric:revolve-extrapolated", "planestrain:mixed:force", "planestrain:mixed:stiffness", "condensed:own:settled:quad9", "condensed:own:settled:triangleMINI", "condensed:own:settled:tetra10", "condensed:own:settled:hexahedron27", "condensed:own:unsettled-force:3d", "condensed:own:unsettled-force:planestrain", "condensed:own:unsettled-force:axisymmetric", "condensed:own:linearised-J-second-order", "condensed:own:touches-axis", "condensed:own:unit:3e-06", "condensed:own:unit:250", "condensed:state-force:3d", "condensed:state-force:planestrain", "condensed:state-force:axisymmetric", "condensed:u:3d", "condensed:u:planestrain",
                        "condensed:u:axisymmetric", "condensed:p:3d", "condensed:J:3d", "condensed:bulk:1", "condensed:bulk:2", "condensed:bulk:3", "condensed:state:3d", "condensed:restart:3d", "condensed:restart:axisymmetric",
                        "planestrain:parallel", "condensed:variant:NeoHooke|ThreeFieldVariation", "condensed:variant:tt.yeoh|NearlyIncompressible",
+                       "axisymmetric:stiffness:quad", "axisymmetric:stiffness:quad8", "axisymmetric:stiffness:quad9", "axisymmetric:stiffness:triangle", "axisymmetric:stiffness:triangle6",
+                       "axisymmetric:stiffness:triangleMINI", "axisymmetric:stiffness-symmetric", "axisymmetric:volume:quad", "axisymmetric:volume:quad9", "axisymmetric:volume:triangle",
+                       "axisymmetric:volume:triangle6", "axisymmetric:volume:triangleMINI", "axisymmetric:homogeneous:quad8", "axisymmetric:homogeneous:triangle6", "axisymmetric:homogeneous:triangleMINI",
+                       "threefield:own-residual:3d", "threefield:own-residual:planestrain", "threefield:own-residual:axisymmetric", "threefield:own-stiffness:3d", "threefield:own-stiffness:planestrain",
+                       "threefield:own-stiffness:axisymmetric",
                        "uniform:vector", "uniform:matrix", "uniform:vector:axisymmetric", "uniform:matrix:axisymmetric", "uniform:constant:linear-elastic-matrix", "uniform:constant:mass", "uniform:constant:body-force"],
     "rule": ("quad4/8/9 ~ hex8/20/27 pairs on undistorted / in-plane distorted / affine meshes with smooth random in-plane states and 4 "
              "materials; axisymmetric forces vs central differences of the oracle-side revolved strain energy and vs the oracle's own virtual work on 6 families (bodies off the axis, and solid bodies touching the axis with meshes graded towards it in three length units) and vs 360-degree "
-             "revolved 3D models with 8/16/32 sectors; condensed vs explicit three-field solutions for bulk 10..5000 in 3D / plane strain / "
+             "revolved 3D models with 8/16/32 sectors; axisymmetric stiffness vs central differences of the oracle's own virtual-work force, revolved volume vs Pappus on the vertex coordinates and "
+             "homogeneous states vs closed-form virtual work on 6 families; explicit three-field residual / matrix vs the oracle's own three-field residual and its central differences in 3D / plane strain / axisymmetric; condensed vs explicit three-field solutions for bulk 10..5000 in 3D / plane strain / "
              "axisymmetric; uniform vs general regions on random grid sizes; a configuration is distinct by (pair or family, geometry, "
              "material, clause)"),
     "assumptions": ["the revolve clause is a rate test on three refinements (second order: error ratios > 3 between 8/16/32 sectors, error < 2e-2 at 32 sectors), not a limit statement"],
